@@ -26,7 +26,23 @@ func (fv *FV) heapInit(key string, hint Val) Val {
 	if v, ok := fv.w.heapSorts[key]; ok {
 		name := "H0_" + sanitize(key)
 		sort := v.S
-		fv.sess.decl("heap:"+key, fmt.Sprintf("(declare-const %s %s)", name, sort))
+		if !fv.sess.declSet["heap:"+key] {
+			fv.sess.decl("heap:"+key, fmt.Sprintf("(declare-const %s %s)", name, sort))
+			// everything stored in the heap at entry was allocated before entry
+			if v.Go != nil && strings.HasPrefix(sort, "(Array Int ") {
+				switch u := types.Unalias(v.Go).Underlying().(type) {
+				case *types.Pointer:
+					fv.sess.decls = append(fv.sess.decls, fmt.Sprintf("(assert (forall ((r!h Int)) (! (<= (select %s r!h) alloc0) :pattern ((select %s r!h)))))", name, name))
+				case *types.Slice:
+					fv.sess.decls = append(fv.sess.decls, fmt.Sprintf("(assert (forall ((r!h Int)) (! (<= (sq.ref (select %s r!h)) alloc0) :pattern ((select %s r!h)))))", name, name))
+					if isPointer(u.Elem()) {
+						fv.sess.decls = append(fv.sess.decls, fmt.Sprintf("(assert (forall ((r!h Int) (i!h Int)) (! (<= (select (sq.arr (select %s r!h)) i!h) alloc0) :pattern ((select (sq.arr (select %s r!h)) i!h)))))", name, name))
+					}
+				case *types.Map:
+					fv.sess.decls = append(fv.sess.decls, fmt.Sprintf("(assert (forall ((r!h Int)) (! (<= (mp.ref (select %s r!h)) alloc0) :pattern ((select %s r!h)))))", name, name))
+				}
+			}
+		}
 		return Val{T: name, S: sort, Go: v.Go}
 	}
 	if hint.S != "" {
@@ -286,6 +302,9 @@ func (fv *FV) assign(st *State, lhs ast.Expr, v Val) {
 func underCore(t types.Type) types.Type {
 	t = types.Unalias(t)
 	if tp, ok := t.(*types.TypeParam); ok {
+		if sub, ok := tpSubst[tp]; ok {
+			return underCore(sub)
+		}
 		if u := coreType(tp); u != nil {
 			return u
 		}
@@ -1260,7 +1279,7 @@ func (fv *FV) liveRef(st *State, v Val) {
 		fv.sess.fact(fmt.Sprintf("(<= %s %s)", v.T, fv.allocCur(st)))
 	case *types.Slice:
 		fv.sess.fact(fmt.Sprintf("(<= (sq.ref %s) %s)", v.T, fv.allocCur(st)))
-		if sl, ok := types.Unalias(v.Go).Underlying().(*types.Slice); ok && isPointer(sl.Elem()) {
+		if sl, ok := types.Unalias(v.Go).Underlying().(*types.Slice); ok && isPointer(sl.Elem()) && !strings.Contains(v.T, "(ite ") {
 			// pointers stored in an existing slice refer to existing objects
 			fv.sess.fact(fmt.Sprintf("(forall ((i!q Int)) (! (<= (select (sq.arr %s) i!q) %s) :pattern ((select (sq.arr %s) i!q))))", v.T, fv.allocCur(st), v.T))
 		}
